@@ -47,7 +47,9 @@ def run(ctx):
         # another interpreter, another string-hash seed: the same digests
         for hs, other in zip(SEEDS[1:], runs[1:]):
             checks += 1
-            if other[i]['digest'] != c['digest'] or [r.get('digest') for r in other[i]['rewrites']] != [r.get('digest') for r in c['rewrites']]:
+            if (other[i]['digest'] != c['digest'] or [r.get('digest') for r in other[i]['rewrites']] != [r.get('digest') for r in c['rewrites']]
+                    or other[i]['ids_digest'] != c['ids_digest']
+                    or [r.get('ids_digest') for r in other[i]['rewrites']] != [r.get('ids_digest') for r in c['rewrites']]):
                 viol.append({'signature': 'oracle:digest-depends-on-interpreter', 'case': {'spec': c['spec'], 'hashseeds': [SEEDS[0], hs]},
                              'observed': other[i]['digest'], 'expected': c['digest'],
                              'what': f'C07: case {i}: digests differ between PYTHONHASHSEED={SEEDS[0]} and {hs}'})
